@@ -649,7 +649,9 @@ func (ip *Interp) appendSlice(st types.Type, s Slice, add []Value) Slice {
 	}
 	esz := ip.elemSize(tElt)
 	key := growKey{cap(s.s), n, esz, hasPointers(tElt)}
+	growCacheMu.Lock()
 	nc, ok := growCache[key]
+	growCacheMu.Unlock()
 	if !ok {
 		nc = hostGrowCap(key.oldCap, key.newLen, key.size, key.ptr)
 		growCacheMu.Lock()
